@@ -89,6 +89,17 @@ CHECKS['C07'] = dict(level='exploration',
     note='Trusted: region extraction by sentinel words in the marker comments; a marker comment that a comment-reflow option spreads over several lines is not judged (counted).',
     design='DESIGN.md §2 C07')
 
+CHECKS['C17'] = dict(level='exploration',
+    technique='runtime monitoring: per-line predicates on the output classified by an independent lexer (trailing blanks, tab/space discipline of leading whitespace by indent_with_tabs / pp_indent_with_tabs, end-of-file policy) over hostile re-layouts of the corpus x tab/indent/align option draws',
+    text='Corpus files of all nine languages, 70 % of them re-laid-out with hostile whitespace (space/tab mixes in front, trailing blanks, whitespace-only lines, tabs between tokens; token stream checked unchanged), are formatted under the complete indent_with_tabs x indent_columns x output_tab_size grid (fixed core) and seeded draws of tab/indent/align/pp/eof options, joint whitespace draws and curated configs (fixed universe of 80k cases; quick: 15k). Every output line that starts outside a comment/literal is judged: no trailing blank where the line ends outside a comment/literal; no tab in the leading whitespace with indent_with_tabs=0; no space before a tab with 1 or 2; directive lines by pp_indent_with_tabs; the end of file by nl_end_of_file/nl_end_of_file_min.',
+    note='Trusted: the independent lexer for the line classification (inputs/outputs it does not lex cleanly are counted and not judged).',
+    design='DESIGN.md §2 C17')
+CHECKS['C20'] = dict(level='exploration',
+    technique='runtime monitoring: run-length oracle over line breaks of the lexer-classified output (nl_max bound, start/end-of-file counts, blank lines next to braces) over corpus files with injected blank-line runs x drawn blank-line configurations',
+    text='Corpus files of all nine languages with runs of 0..6 blank lines injected before lines that start outside comments/literals/directives and at file start/end (token stream checked unchanged) are formatted under: nl_max 0..6 x nl_start_of_file at all four values x minima (fixed core), and a fixed universe of 90k drawn configs (quick: 12k) over nl_max 1..6 with blank-line count options <= nl_max and other newline options, the start/end options x minima 0..3, and eat_blanks_*. The output must contain no run of more than nl_max line breaks between tokens outside comments/literals (when no count option asks for more), exactly/at least the prescribed line breaks before the first and after the last token, and no blank line after a line-ending "{" / before a line-starting "}" under eat_blanks_*.',
+    note='Trusted: the independent lexer for the line classification; the eat_blanks clause is judged only when no blank-line count option is set.',
+    design='DESIGN.md §2 C20')
+
 ALL = ['C%02d' % i for i in range(1, 21)]
 
 
